@@ -317,6 +317,37 @@ class ArmLoopGen:
 
 
 # ---------------------------------------------------------------------------
+# S2-deadscope: a name that is bound only in dead code (after return / break / continue) is still a LOCAL name of the
+# function - reading it in live code raises UnboundLocalError, not NameError
+
+
+class DeadScopeGen:
+    PLACES = ["after-return-at-top", "after-return-in-if", "after-break", "after-continue", "after-return-in-loop"]
+    READS = ["guarded-return", "augmented-assignment"]
+
+    def __init__(self, ch):
+        self.ch = ch
+        self.kinds_used = []
+
+    def program(self):
+        c = self.ch.choose
+        place = self.PLACES[c(len(self.PLACES))]
+        read = self.READS[c(len(self.READS))]
+        self.position = f"{place}:{read}"
+        L = ["def f(x, y, n, c, v=0):", "    mark(1)"]
+        rd = ["    if ext(0):", "        mark(2)", "        return w"] if read == "guarded-return" else ["    if ext(0):", "        mark(2)", "        v += w"]
+        if place == "after-return-at-top":
+            L += rd + ["    mark(3)", "    return v", "    w = 1"]
+        elif place == "after-return-in-if":
+            L += rd + ["    if ext(1):", "        mark(3)", "        return v", "        w = 1", "    mark(4)", "    return v"]
+        else:
+            t = {"after-break": "break", "after-continue": "continue", "after-return-in-loop": "return v"}[place]
+            L += ["    while ext(1):", "        mark(3)"] + ["    " + r for r in rd] + [f"        {t}", "        w = 1", "    mark(4)", "    return v"]
+        self.kinds_used = ["while"] if "loop" in place or place in ("after-break", "after-continue") else ["if"]
+        return "\n".join(L) + "\n"
+
+
+# ---------------------------------------------------------------------------
 # S2-for: what a for loop leaves in its target
 
 
@@ -543,6 +574,7 @@ def causes(src):
       D10  an and/or nested (at any depth) in a non-first operand of an and/or
       D11  an and/or inside arithmetic / comparison / call arguments with an operand to its left
       D12  a for-loop target that is read after the loop (an empty iterable leaves None in it)
+      D18  a name bound only in dead code and read in live code (pruning the dead code turns the local into a global)
     """
     tree = ast.parse(src)
     tags = set()
@@ -565,6 +597,23 @@ def causes(src):
             if any(has_boolop(a) for a in node.args[1:]):
                 tags.add("D11-boolop-operand-after-sibling")
     fn = tree.body[0]
+    # D18: names stored only in dead statements (behind a return / break / continue of the same statement list)
+    dead_ids = set()
+    for node in ast.walk(fn):
+        for field in ("body", "orelse"):
+            lst = getattr(node, field, None)
+            if isinstance(lst, list):
+                for i, st in enumerate(lst):
+                    if isinstance(st, (ast.Return, ast.Break, ast.Continue)):
+                        for d in lst[i + 1:]:
+                            dead_ids |= {id(m) for m in ast.walk(d)}
+                        break
+    params = {a.arg for a in fn.args.args}
+    stored_live = {m.id for m in ast.walk(fn) if isinstance(m, ast.Name) and isinstance(m.ctx, ast.Store) and id(m) not in dead_ids}
+    stored_dead = {m.id for m in ast.walk(fn) if isinstance(m, ast.Name) and isinstance(m.ctx, ast.Store) and id(m) in dead_ids}
+    loaded_live = {m.id for m in ast.walk(fn) if isinstance(m, ast.Name) and isinstance(m.ctx, ast.Load) and id(m) not in dead_ids}
+    if (stored_dead - stored_live - params) & loaded_live:
+        tags.add("D18-name-bound-only-in-dead-code")
     for node in ast.walk(fn):
         if isinstance(node, ast.For) and isinstance(node.target, ast.Name):
             tgt = node.target.id
